@@ -21,7 +21,7 @@ BUDGET = {
 ANCHORS = ["utils:lint"]
 
 CORRUPTIONS = ["no_type", "bad_type", "fanin_on_source", "second_driver", "bbout_second_load", "bbout_nonbuf_load", "dotted_name", "pin_deleted", "pin_retyped", "undriven_gate", "unloaded_node", "single_input", "fanin_on_x", "fanin_on_bbout", "undriven_pin", "pin_direction_swapped", "two_dots_known_instance", "two_dots_unknown_instance"]
-PRODUCERS = ["verilog", "fast_verilog", "bench", "adder", "mux", "popcount", "add_subcircuit", "fill_blackbox", "limit_fanin", "limit_fanout", "ternary", "acyclic_unroll", "insert_registers", "unroll", "sequential_unroll", "sensitization_transform", "sensitivity_transform", "miter_tied", "copy", "relabel", "strip_blackboxes_then_nothing", "supergates", "remove_unloaded"]
+PRODUCERS = ["verilog", "fast_verilog", "bench", "adder", "mux", "popcount", "add_subcircuit", "fill_blackbox", "limit_fanin", "limit_fanout", "ternary", "acyclic_unroll", "insert_registers", "unroll", "sequential_unroll", "sensitization_transform", "sensitivity_transform", "miter_tied", "copy", "relabel", "strip_blackboxes_then_nothing", "supergates", "remove_unloaded", "strip_io", "strip_inputs", "strip_outputs"]
 
 
 def gen(rng, ctx):
@@ -53,7 +53,7 @@ def gen(rng, ctx):
     else:
         ni = rng.randint(1, 4)
         case["c"] = G.rand_circuit(rng, ni, rng.randint(2, 8), max_fanin=5, p_wide=0.3, p_const=0.15)
-        if prod in ("limit_fanin", "limit_fanout", "copy", "relabel") and rng.random() < 0.4:
+        if prod in ("limit_fanin", "limit_fanout", "copy", "relabel", "strip_io", "strip_inputs", "strip_outputs") and rng.random() < 0.6:
             case["c"] = G.add_blackboxes(rng, case["c"], 1)
         if prod == "remove_unloaded":
             cd = G.add_blackboxes(rng, G.rand_circuit(rng, ni, rng.randint(2, 6), max_fanin=3), rng.randint(1, 2))
@@ -308,6 +308,8 @@ def produce(case, ctx):
         return [cg.tx.strip_blackboxes(c)]
     if prod == "supergates":
         return list(cg.tx.supergates(c))
+    if prod in ("strip_io", "strip_inputs", "strip_outputs"):
+        return [getattr(cg.tx, prod)(c)]
     if prod == "remove_unloaded":
         p = c.copy()
         p.remove_unloaded()
@@ -332,7 +334,8 @@ def check_b(case, ctx):
         return
     for r in res:
         ctx.count(f"produced:{prod}")
-        okl, e = ctx.call(cg.lint, r)
+        # the io-stripping helpers intentionally leave undriven nodes; every other rule still applies
+        okl, e = ctx.call(cg.lint, r, undriven=prod not in ("strip_io", "strip_inputs"))
         probs = own_lint(Net.of(r))
         if not okl:
             ctx.violation("library_output_fails_lint", f"result of {prod} on a lint-clean argument fails lint: {e!r}", extra={"producer": prod})
